@@ -1,6 +1,7 @@
 package main
 
 import (
+	"encoding/hex"
 	"fmt"
 	"os"
 	"path/filepath"
@@ -21,7 +22,12 @@ func isNodeType(t reflect.Type) bool {
 	return false
 }
 
-func sexpStr(s string) string { return strconv.Quote(s) }
+func sexpStr(s string) string {
+	if dumpHexStrings {
+		return hex.EncodeToString([]byte(s))
+	}
+	return strconv.Quote(s)
+}
 
 // dumpVal renders a Go value reachable from an AST as the generic s-expression mirrored by
 // GoSQLXModel.Val: (node Ty (F v)...), (struct (F v)...), (list v...), (str "..."), (int n), (bool b), nil.
@@ -29,6 +35,15 @@ func dumpVal(v reflect.Value) string {
 	var b strings.Builder
 	dumpInto(&b, v, 0)
 	return b.String()
+}
+
+var dumpHexStrings bool
+
+// dumpNodeHex is dumpNode with every string hex-encoded (the form the Lean driver reads)
+func dumpNodeHex(n any) string {
+	dumpHexStrings = true
+	defer func() { dumpHexStrings = false }()
+	return dumpVal(reflect.ValueOf(n))
 }
 
 func dumpInto(b *strings.Builder, v reflect.Value, depth int) {
